@@ -6,4 +6,4 @@ Open Scope string_scope.
 Lemma pin_apply_jsonpath_ok : pin_apply_jsonpath = "e35205379d05de61". Proof. reflexivity. Qed.
 Lemma pin_apply_path_ok : pin_apply_path = "45ad86bf87681f73". Proof. reflexivity. Qed.
 Lemma pin_apply_resultpath_ok : pin_apply_resultpath = "804a2d5ea1179642". Proof. reflexivity. Qed.
-Lemma pin_evaluate_payload_template_ok : pin_evaluate_payload_template = "e6f1e3efded6a129". Proof. reflexivity. Qed.
+Lemma pin_evaluate_payload_template_ok : pin_evaluate_payload_template = "8ee86bf2a0f16df7". Proof. reflexivity. Qed.
